@@ -3,7 +3,11 @@ import importlib
 import os
 
 def load(pid):
-    mod = importlib.import_module("specs." + pid.lower())
+    """Spec of a claimed property (c<NN>.py) or of a shelved harness set that other checks borrow from (_c<NN>.py)."""
+    try:
+        mod = importlib.import_module("specs." + pid.lower())
+    except ModuleNotFoundError:
+        mod = importlib.import_module("specs._" + pid.lower())
     return mod.SPEC
 
 def all_ids():
